@@ -250,7 +250,7 @@ def demux_harness(which: str):
             I2.ghost["cur"] = None
             I2.ghost["dequeued"] = k.t
             I2.ghost["skipped0"] = k.t
-            fr.env["unexpected_packets"] = VList(
+            fr.env[loops.list_accumulator(fr)] = VList(
                 None, k.t, lambda j: VTuple([VObj(Stub, {"fid": VInt(FID(j))}, tag="skipped"),
                                              NONE, NONE]))
             for n in ("hdr", "req_hdr", "data", "item"):
@@ -258,7 +258,7 @@ def demux_harness(which: str):
                 fr.poison.add(n)
 
         def inv(I2: Interp, fr: Frame) -> list[tuple[str, Any]]:
-            up = fr.env["unexpected_packets"]
+            up = fr.env[loops.list_accumulator(fr)]
             out = [("every-dequeued-frame-so-far-was-kept-aside",
                     up.length() == I2.ghost["dequeued"])]
             if I2.ghost.get("cur") is not None:
@@ -506,6 +506,12 @@ def native_replay(unit: str, obligation: str, model: dict) -> tuple[bool, str]:
         return asyncio.run(scripted())
     if unit.startswith("framing/"):
         return asyncio.run(segmentation())
+    if unit.startswith("demux/") and "keeps-arrival-order" not in obligation \
+            and "cancel-safe" not in obligation:
+        # any other obligation of the waits: frames kept aside come back once each, in order
+        return asyncio.run(scripted())
+    if not (unit.startswith("demux/") or "alive" in obligation):
+        return False, "no native scenario for this obligation"
 
     async def go() -> tuple[bool, str]:
         r = asyncio.StreamReader()
